@@ -110,4 +110,43 @@ def projCoordsND [Zero K] [One K] (a : ND K) (c : Nat) : ND K :=
   let indices := (List.range n).map fun j => if j < c then j else j + 1
   ((full (a.shape.dropLast ++ [n + 1]) (0 : K)).setLastIdx indices a).setLastConst c 1
 
+/-- `hyperbolic.minkowski(n)` as an array -/
+def minkND [Zero K] [One K] [Neg K] (n : Nat) : ND K :=
+  ofFn [n, n] (fun ix => if ix.getD 0 0 = ix.getD 1 0 then (if ix.getD 0 0 = 0 then -1 else 1) else 0)
+
+/-- `hyperbolic.Segment._compute_aux_data(end_data)` (hyperbolic.py:945), literally:
+`products = end_data @ minkowski(dim) @ end_data.swapaxes(-1, -2)`;
+`a11, a22, a12 = products[..., 0, 0], products[..., 1, 1], products[..., 0, 1]`;
+`a = a11 - 2*a12 + a22; b = 2*a12 - 2*a22; c = a22`;
+`mu± = (-b ± sqrt(b*b - 4*a*c)) / (2*a)`;
+`null± = mu±[..., newaxis] * end_data[..., 0, :] + (1 - mu±)[..., newaxis] * end_data[..., 1, :]`;
+`np.stack([null1, null2], axis=-2)`.  `r` is the square root. -/
+def segmentAuxND [Add K] [Mul K] [Zero K] [One K] [Neg K] [Sub K] [Div K] [OfNat K 2] [OfNat K 4]
+    (r : K → K) (e : ND K) : Except String (ND K) := do
+  let n := e.shape.getLastD 0
+  let ol := e.rank - 2
+  let m1 ← matmul e (minkND n)
+  let pr ← matmul m1 (e.swapaxes (e.rank - 1) (e.rank - 2))
+  let a11 := (pr.selectLast 0).selectLast 0
+  let a22 := (pr.selectLast 1).selectLast 1
+  let a12 := (pr.selectLast 1).selectLast 0
+  let t ← zipBcast (fun x y => x - 2 * y) a11 a12
+  let a ← zipBcast (· + ·) t a22
+  let b ← zipBcast (fun x y => 2 * x - 2 * y) a12 a22
+  let ac ← zipBcast (fun x y => 4 * x * y) a a22
+  let disc ← zipBcast (fun x y => x * x - y) b ac
+  let num1 ← zipBcast (fun x d => -x + r d) b disc
+  let mu1 ← zipBcast (fun p x => p / (2 * x)) num1 a
+  let num2 ← zipBcast (fun x d => -x - r d) b disc
+  let mu2 ← zipBcast (fun p x => p / (2 * x)) num2 a
+  let e0 := e.selectAxis ol 0
+  let e1 := e.selectAxis ol 1
+  let p10 ← zipBcast (fun x m => m * x) e0 (mu1.expandRange mu1.rank 1)
+  let p11 ← zipBcast (fun x m => (1 - m) * x) e1 (mu1.expandRange mu1.rank 1)
+  let n1 ← zipBcast (· + ·) p10 p11
+  let p20 ← zipBcast (fun x m => m * x) e0 (mu2.expandRange mu2.rank 1)
+  let p21 ← zipBcast (fun x m => (1 - m) * x) e1 (mu2.expandRange mu2.rank 1)
+  let n2 ← zipBcast (· + ·) p20 p21
+  ND.stack [n1, n2] ol
+
 end GT.Act
